@@ -3,7 +3,7 @@ import json
 from pcv import core, capio, textgen
 
 P = "PcVerif.Props.C03."
-THEOREMS = [P + t for t in ["unescape_escape", "xmlUnescape_escape", "escape_no_angle"]]
+THEOREMS = [P + t for t in ["unescape_escape", "xmlUnescape_escape", "escape_no_angle", "vtt_text_roundtrip", "vtt_text_cannot_end_cue", "vtt_escapes_pinned"]]
 
 
 def make(tier, seed):
@@ -53,7 +53,29 @@ def explore(chk):
         else:
             ops["doc"] = b.add("mdvd.write", capio.enc_langs(list(abstract.values())))
         jobs.append((wname, W, caps, abstract, ops))
+    # the WebVTT escaping itself and the reference decoder the round-trip theorem is stated with
+    vtexts = sorted({l for (wn, _, caps, _, _) in jobs if wn == "webvtt" for c in caps for l in c[3] if l})
+    vtexts += [textgen.adv_line(rng) + rng.choice(["", "-", "--", "-->", "&", "&a", "&amp", "<", ">"]) + textgen.adv_line(rng) for _ in range(200)]
+    vops = [(t, b.add("vttw.encode", core.enc(t))) for t in vtexts]
     out = b.run() if chk.driver_ok else None
+    if out is not None:
+        wv = pycaption.WebVTTWriter()
+        b2 = core.Batch()
+        dops = []
+        for t, o in vops:
+            I = wv._encode_illegal_characters(t)
+            chk.count("vtt_escape_cases")
+            if core.dec(out[o]) != I:
+                chk.correspondence_failure({"text": t, "impl": I, "model": core.dec(out[o])}, "WebVTT escaping: implementation and model differ")
+            if textgen.vtt_decode(I) != t or "-->" in I:
+                chk.property_failure({"writer": "webvtt", "text": t, "escaped": I, "decoded": textgen.vtt_decode(I)},
+                                     "webvtt: escaped text does not decode to the text, or still contains '-->'")
+            dops.append((I, b2.add("spec.vtt.decode", core.enc(I))))
+        out2 = b2.run()
+        for I, o in dops:
+            if "<" not in I and core.dec(out2[o]) != textgen.vtt_decode(I):
+                chk.correspondence_failure({"escaped": I, "lean_spec": core.dec(out2[o]), "harness_spec": textgen.vtt_decode(I)},
+                                           "WebVTT reference decoder: Lean definition and the harness parser differ")
     for (wname, W, caps, abstract, ops) in jobs:
         cs = capio.build_set(abstract)
         case = {"writer": wname, "captions": [{"nodes": [list(n) for n in nodes], "lines": lines} for (_, _, nodes, lines) in caps]}
